@@ -100,7 +100,15 @@ def _alpha_small(base):
     return mv
 
 
-ALPHABETS = {"full": _alpha_full, "medium": _alpha_medium, "small": _alpha_small}
+def _alpha_rotate(base):
+    """E rotates through the peer's IDs while the peer's NEW_CONNECTION_ID frames are repeated
+    (retransmissions of frames E has long processed - including for IDs E retired meanwhile)."""
+    if base == "fresh":
+        return [("change",), ("ncid", 1, 0), ("ncid", 2, 0), ("ack",)]
+    return [("change",), ("ncid", 1, 0), ("ncid", 8, 0), ("ncid", 9, 0), ("ack",)]
+
+
+ALPHABETS = {"full": _alpha_full, "medium": _alpha_medium, "small": _alpha_small, "rotate": _alpha_rotate}
 
 
 # ===================================================================== world
@@ -237,6 +245,16 @@ class World:
                     % (rec.pn, s, self.R, sorted(self.usable())),
                     cls="current_below_rpt" if s is not None else "unknown_dcid")
 
+        # ---- monitor: an ID whose retirement E announced is not used again (RFC 9000 5.1.2 / 19.16:
+        # RETIRE_CONNECTION_ID says the ID "will no longer be used"; the peer forgets it, so later
+        # packets addressed to it cannot be delivered) - unless the peer has provided nothing else
+        if s is not None and any(pn < rec.pn for pn in self.retire_pns.get(s, ())) and self.usable():
+            self._v("dcid_after_retire",
+                    "packet pn=%s of E is addressed to peer CID seq %s although E announced its retirement in "
+                    "packet(s) %s and holds usable peer CID(s) %s (DCID history %s)"
+                    % (rec.pn, s, [pn for pn in self.retire_pns[s] if pn < rec.pn], sorted(self.usable()),
+                       self.dcid_hist))
+
     def _v(self, monitor, what, **extra):
         sig = dict(monitor=monitor, **extra)
         what = "[E=%s, base=%s] %s" % (self.role, self.base, what)
@@ -277,6 +295,17 @@ class World:
         if bot.E.terminated is not None and self.closed is None:
             t = bot.E.terminated
             self.closed = (t.error_code, t.frame_type, t.reason_phrase)
+            # ---- monitor: E may only accuse the peer of exceeding the limit when it did.  The peer's
+            # own count (IDs delivered, at or above the largest retire-prior-to delivered, for which E has
+            # not sent RETIRE_CONNECTION_ID) is an upper bound of what E legitimately holds.
+            if t.error_code == 0x09 and not boot:
+                kept = self.usable()
+                if len(kept) <= LIMIT_LOCAL:
+                    self._v("unjustified_cid_limit_close",
+                            "E closed with CONNECTION_ID_LIMIT_ERROR (%r) although the peer keeps only %d "
+                            "active connection IDs %s (limit %d): delivered %s, retire-prior-to %d, retired by E %s"
+                            % (t.reason_phrase, len(kept), sorted(kept), LIMIT_LOCAL, sorted(self.issued), self.R,
+                               sorted(self.retire_pns)))
         if not boot:
             self._limits()
         return r
@@ -870,6 +899,8 @@ PLAN = {
         ("server", "full", "medium", 2), ("client", "full", "medium", 3),
         ("server", "fresh", "small", 4), ("client", "fresh", "small", 3),
         ("server", "full", "small", 3), ("client", "full", "small", 3),
+        ("server", "fresh", "rotate", 10), ("client", "fresh", "rotate", 10),
+        ("server", "full", "rotate", 6), ("client", "full", "rotate", 6),
     ],
     "thorough": [
         ("server", "fresh", "full", 3), ("client", "fresh", "full", 2),
@@ -878,6 +909,8 @@ PLAN = {
         ("server", "full", "medium", 4), ("client", "full", "medium", 4),
         ("server", "fresh", "small", 6), ("client", "fresh", "small", 5),
         ("server", "full", "small", 5), ("client", "full", "small", 5),
+        ("server", "fresh", "rotate", 14), ("client", "fresh", "rotate", 14),
+        ("server", "full", "rotate", 10), ("client", "full", "rotate", 10),
     ],
 }
 
